@@ -66,7 +66,21 @@ pub fn sha3_256(bytes: &[u8]) -> [u8; 32] {
 /// Lean driver) applied to an independently computed SHA3-256 digest must be the challenge the real code derived.
 pub fn model_finish_matches(ctx: &mut Ctx, bytes: &[u8], c: &Scalar) -> bool {
     let d = sha3_256(bytes);
-    ctx.expect(&format!("raw-scalar {}", hex::encode(d)), &[Real::S(*c)])
+    let a = ctx.expect(&format!("raw-scalar {}", hex::encode(d)), &[Real::S(*c)]);
+    // the whole of `finish` in the model: the driver hashes the recorded bytes itself (Model/Sha3.lean) and derives the
+    // challenge; its digest must be the independent implementation's, its challenge the one the real code derived
+    let b = bytes.len() > MODEL_HASH_LIMIT || ctx.expect(&format!("sha3-challenge {}", hex_or_dash(bytes)), &[Real::X(d.to_vec()), Real::S(*c)]);
+    a && b
+}
+
+/// hashed strings longer than this are not sent to the model's SHA3 (the line protocol carries them as hex)
+pub const MODEL_HASH_LIMIT: usize = 1 << 16;
+
+pub fn hex_or_dash(bytes: &[u8]) -> String { if bytes.is_empty() { "-".into() } else { hex::encode(bytes) } }
+
+/// `digest` is what the real code produced as the SHA3-256 of `bytes`: the model's executed hash must produce it too
+pub fn model_hash_matches(ctx: &mut Ctx, bytes: &[u8], digest: &[u8]) -> bool {
+    bytes.len() > MODEL_HASH_LIMIT || ctx.expect(&format!("sha3 {}", hex_or_dash(bytes)), &[Real::X(digest.to_vec())])
 }
 
 pub fn sha3_challenge(bytes: &[u8]) -> Scalar {
@@ -353,6 +367,7 @@ pub fn establish_customer(ctx: &mut Ctx, w: &World, hidden: &Agreed) -> Option<E
 pub fn check_est_transcript(ctx: &mut Ctx, w: &World, a: &Agreed, d: &EstD, recorded: &[u8], who: &str) -> bool {
     let book = ctx.book.clone();
     let digest = sha3_256(&a.ctx_bytes); // Context::new = SHA3-256 of the input, computed independently
+    let _ = model_hash_matches(ctx, &a.ctx_bytes, &digest); // … and by the model's executed SHA3 (the real digest is located in the recorded bytes below)
     let op = format!("est-transcript {} {} {} {} 0", pk_args(&w.kpd.pk), a.pub_args(), d.args(), hex::encode(digest));
     let toks = ctx.ask(&op);
     ctx.evals += 1;
